@@ -16,6 +16,7 @@ import GruleModel.Properties.C16
 import GruleModel.Properties.SyntaxTie
 import GruleModel.Proofs.RealLiterals
 import GruleModel.Proofs.LexFacts
+import GruleModel.Proofs.ParseRangeDoc
 namespace Grule.C17
 open Grule Grule.Syntax Grule.C16
 
@@ -199,6 +200,22 @@ theorem C17_parseDoc_real (ot : BinOp → List Char) (dT : String → Token) (ru
     parseDoc realDec (ParseDoc.fDoc RealLiterals.canonTok ot dT rules) = (rules, none) :=
   RealLiterals.real_parseDoc ot dT rules hw
 
+/-- **the converse: what is accepted is well formed.** Every rule of an accepted text has a condition and at least one
+    action, its operators are grouped by `prec` and to the left, negations are outermost — in particular a text with an
+    empty condition or an empty action list is never accepted (`Proofs/ParseRange`, `ParseRangeDoc`). With
+    `C17_parseDoc_roundtrip`: the parser's range is exactly the well-formed documents, on whose tokens it is the identity. -/
+theorem C17_accepted_rules_wellformed (text : List Char) (h : (front text).verdict = .accepted) :
+    ∀ r ∈ (front text).rules, ParseDoc.WFRule ParseRange.Any r := by
+  have hm := accepted_means text h
+  rw [front_rules_eq]
+  simp only [h, beq_self_eq_true, if_true]
+  exact ParseRangeDoc.parseDoc_range realDec (lex text).toks _ (Prod.ext rfl hm.2.2.1)
+
+theorem C17_parser_range (d : Dec) (f p : Nat) (ts : List Token) (e : Expr) (rest : List Token)
+    (h : parseExpr d f p ts = .ok (e, rest)) (hp : p ≤ 6) :
+    ParseAtoms.WFE ParseRange.Any e ∧ p ≤ ParseGroup.level e ∧ ParseRange.Post p rest :=
+  ParseRange.parse_range d f p ts e rest h hp
+
 /-- a text that starts with a character no lexer rule can begin with is rejected (`lexical`), whatever follows -/
 theorem C17_illegal_start_rejected (c : Char) (cs : List Char) (h : c ∈ LexFacts.illegalStart) :
     (front (c :: cs)).verdict ≠ .accepted := by
@@ -222,6 +239,8 @@ theorem C17_leading_whitespace (ws cs : List Char) (h : ∀ c ∈ ws, isWs c = t
 #print axioms C17_valid_documents_parse
 #print axioms C17_parseDoc_roundtrip
 #print axioms C17_parseDoc_real
+#print axioms C17_accepted_rules_wellformed
+#print axioms C17_parser_range
 #print axioms C17_illegal_start_rejected
 #print axioms C17_leading_whitespace
 #print axioms Grule.SyntaxTie.tie_lexer_order
